@@ -4,7 +4,7 @@ import json, os, subprocess
 ROOT = os.path.dirname(os.path.abspath(__file__))
 import sys
 sys.path.insert(0, ROOT)
-from checkconf import PROPS, LEVEL_TEXT, LEVEL_NOTE, NOT_APPLICABLE
+from checkconf import PROPS, LEVEL_TEXT, LEVEL_NOTE, NOT_APPLICABLE, MISSING
 
 props = [json.loads(l) for l in open(os.path.join(ROOT, "properties.jsonl"))]
 try:
@@ -26,7 +26,7 @@ for p in props:
             replay_cmd_template=f"./check {pid} --replay {{path}}",
             engine="lean4-proof+correspondence",
             level_claimed=dict(category="proof", text=LEVEL_TEXT.get(pid, LEVEL_TEXT["default"]), design_ref=f"DESIGN.md §5 {pid}"),
-            level_note=LEVEL_NOTE.get(pid, LEVEL_NOTE["default"]),
+            level_note=LEVEL_NOTE.get(pid, LEVEL_NOTE["default"]) + (" Not a theorem for this property: " + " | ".join(MISSING[pid]) if pid in MISSING else " Every clause of this property is a theorem about the model (DESIGN.md §12)."),
             technique="machine-checked proof in Lean 4 about a hand-written model + differential correspondence check against the Rust on every run",
         ))
     else:
